@@ -1,6 +1,6 @@
-(* ConfigAcceptProofs.v — the exact accept set of the generated validator (converse of c16_sound).  Kept apart from
-   ConfigProofs.v on purpose: these lemmas break when validation becomes STRICTER or loses a redundant rule, which does
-   not violate C16, so nothing that gates `bin/check C16` may depend on this file. *)
+(* ConfigAcceptProofs.v — the exact accept set of the validation model (converse of c16_sound).  Kept apart from
+   ConfigProofs.v: these lemmas describe the model EXACTLY (they break when a rule is added to `model_rules` or a
+   redundant one removed, which does not violate C16), so nothing that gates `bin/check C16` depends on this file. *)
 From Coq Require Import String ZArith List Bool Lia.
 Require Import ZifyBool.
 From Esc Require Import SpecConfig proofs.ConfigProofs.
@@ -26,7 +26,7 @@ Ltac by_members HIn :=
   repeat (destruct HIn as [HIn|HIn]; [rewrite <- HIn; vm_compute; reflexivity|]);
   contradiction.
 
-Lemma safe_gen_validate : forall c, safe c -> beyond_safe c -> gen_validate c = true.
+Lemma safe_model_validate : forall c, safe c -> beyond_safe c -> model_validate c = true.
 Proof.
   intros c S B.
   destruct S as (N1 & N2 & N3 & N4 & T & Rt & G & Cd & MM & HE & HL & HA).
@@ -34,21 +34,22 @@ Proof.
   unfold soft_ns, hard_ns, cooldown_ns in *.
   apply max_node_age_valid_b in HA. rewrite eqb_empty_slen in HA. pose proof (slen_nonneg (d_raw (c_max_node_age c))).
   str_fact N1; str_fact N2; str_fact N3; str_fact N4; str_fact B1; str_fact B2; str_fact B3.
-  unfold gen_validate, gen_rules. cbn [forallb]. cbv beta.
+  unfold model_validate, model_rules. cbn [forallb]. cbv beta.
+  unfold auto_discover_min_max, valid_taint_effect, valid_aws_lifecycle, valid_max_node_age, taint_effect_types.
   repeat (apply andb_true_intro; split); try reflexivity; rewrite ?eqb_empty_slen, ?eqb_empty_slen';
     first [ clear HE HL; lia | by_members HE | by_members HL ].
 Qed.
 
 (* ---- the accept set, exactly ---- *)
-Lemma gen_validate_beyond : forall c, gen_validate c = true -> beyond_safe c.
+Lemma model_validate_beyond : forall c, model_validate c = true -> beyond_safe c.
 Proof.
   intros c H. split_rules H. unfold beyond_safe.
   repeat match goal with |- _ /\ _ => split end; nonempty_goal.
 Qed.
 
-Lemma gen_validate_iff : forall c, gen_validate c = true <-> safe c /\ beyond_safe c.
+Lemma model_validate_iff : forall c, model_validate c = true <-> safe c /\ beyond_safe c.
 Proof.
   intro c. split.
-  - intro H. split; [apply gen_validate_safe | apply gen_validate_beyond]; exact H.
-  - intros [S B]. apply safe_gen_validate; assumption.
+  - intro H. split; [apply model_validate_safe | apply model_validate_beyond]; exact H.
+  - intros [S B]. apply safe_model_validate; assumption.
 Qed.
